@@ -13,7 +13,7 @@ From Coq Require Import List NArith Bool Arith Permutation.
 From SWH.lib Require Import Bytes.
 From SWH Require Import Generated.
 From SWH.model Require Import Frozen.
-From SWH.proofs Require Import FrozenProofs FrozenAliasProofs FrozenEqProofs FrozenMain.
+From SWH.proofs Require Import FrozenProofs FrozenAliasProofs FrozenEqProofs FrozenMappingProofs FrozenMain.
 Import ListNotations.
 Local Open Scope nat_scope.
 
@@ -202,3 +202,59 @@ Theorem C11_eq_hash_satisfiable :
   obj_eqb 5 [] x (person "Bob" "a") = false.
 Proof. exact eq_hash_satisfiable. Qed.
 Print Assumptions C11_eq_hash_satisfiable.
+
+(* A frozen mapping (more generally: any value) that exists never changes.
+   For EVERY sequence of operations of the current code - constructor calls of
+   any class by either route with any arguments (ImmutableDict(x) included,
+   which shares the cell of an ImmutableDict argument), from_dict calls,
+   copy_pop calls on any ImmutableDict (also the one Revision.__attrs_post_init__
+   makes on the caller's frozen metadata), mutations of containers the caller
+   owns - the whole observation of [v] is the same afterwards, provided that
+   reading [v] does not go through a container that the script mutates
+   (for v = VIDict h: the caller does not hold h, and no mutated container is
+   nested in the mapping). *)
+Theorem C11_frozen_mapping_never_changes : forall (Hid : rval -> atom) (Hpy : rval -> N) g f ops s v,
+  safe g s (op_mut_targets ops) v = true ->
+  observe Hid Hpy g (run_ops Hid New f s ops) v = observe Hid Hpy g s v.
+Proof. exact frozen_mapping_never_changes. Qed.
+Print Assumptions C11_frozen_mapping_never_changes.
+
+(* no hypothesis at all on what is nested where: the cell of a frozen mapping
+   is never written (literally the same items), as long as the caller's own
+   mutations do not name that very cell *)
+Theorem C11_frozen_cell_never_written : forall (Hid : rval -> atom) f ops s h c,
+  lookup s h = Some c -> ~ In h (op_mut_targets ops) ->
+  lookup (run_ops Hid New f s ops) h = Some c.
+Proof. exact frozen_cell_never_written. Qed.
+Print Assumptions C11_frozen_cell_never_written.
+
+Theorem C11_frozen_mapping_satisfiable :
+  safe 6 cp_store (op_mut_targets cp_ops) (VIDict 0) = true /\
+  run_ops ex_Hid New 6 cp_store cp_ops <> cp_store /\
+  length (run_ops ex_Hid New 6 cp_store cp_ops) = 7 /\
+  observe ex_Hid ex_Hpy 6 (run_ops ex_Hid New 6 cp_store cp_ops) (VIDict 0) = observe ex_Hid ex_Hpy 6 cp_store (VIDict 0).
+Proof. exact frozen_mapping_satisfiable. Qed.
+Print Assumptions C11_frozen_mapping_satisfiable.
+
+(* the mutant copy_pop that pops from a new ImmutableDict sharing the receiver's
+   _data: (a) copy_pop(present key) changes the receiver, (b) so does building a
+   Revision from an already frozen metadata holding "extra_headers", and two
+   Revisions built from the same arguments differ; the current code: neither *)
+Theorem C11_copy_pop_refuted_inplace :
+  safe 6 cp_store (op_mut_targets [OCopyPop (VIDict 0) (Ak "a")]) (VIDict 0) = true /\
+  observe ex_Hid ex_Hpy 6 (run_ops ex_Hid PopInPlace 6 cp_store [OCopyPop (VIDict 0) (Ak "a")]) (VIDict 0)
+    <> observe ex_Hid ex_Hpy 6 cp_store (VIDict 0) /\
+  observe ex_Hid ex_Hpy 6 (run_ops ex_Hid New 6 cp_store [OCopyPop (VIDict 0) (Ak "a")]) (VIDict 0)
+    = observe ex_Hid ex_Hpy 6 cp_store (VIDict 0) /\
+  observe ex_Hid ex_Hpy 6 (run_ops ex_Hid PopInPlace 6 cp_store [OConstruct Ctor (bs "Revision") (rev_args (VIDict 0))]) (VIDict 0)
+    <> observe ex_Hid ex_Hpy 6 cp_store (VIDict 0) /\
+  match run_twins ex_Hid PopInPlace 6 (bs "Revision") cp_store (rev_args (VIDict 0)) (rev_args (VIDict 0)) with
+  | Ok (e12, e21, _, _) => e12 = false /\ e21 = false
+  | Err _ => False
+  end /\
+  match run_twins ex_Hid New 6 (bs "Revision") cp_store (rev_args (VIDict 0)) (rev_args (VIDict 0)) with
+  | Ok (e12, e21, Some k1, Some k2) => e12 = true /\ e21 = true /\ k1 = k2
+  | _ => False
+  end.
+Proof. exact copy_pop_refuted_inplace. Qed.
+Print Assumptions C11_copy_pop_refuted_inplace.
